@@ -411,6 +411,8 @@ fn random_entry(rng: &mut Rng, index: usize, ids: u64, fmt_weights: (u64, u64)) 
     let kids: Vec<usize> = if index > 0 && rng.chance(1, 3) { (1..=index).filter(|_| rng.chance(1, 2)).collect() } else { vec![] };
     let r = rng.below(100);
     let fmt = if r < fmt_weights.0 { "full" } else if r < fmt_weights.0 + fmt_weights.1 { "part" } else { "glyph" };
+    // glyph keyed entries may carry segments on a second axis (intersection sizes of invalidating ones are modelled on one)
+    let ds: Vec<(i32, i32)> = if fmt == "glyph" { ds.into_iter().map(|(a, b)| if rng.chance(1, 3) { (a + AX_STEP, b + AX_STEP) } else { (a, b) }).collect() } else { ds };
     AbsEntry { cps, feats, ds, kids, conj: rng.chance(1, 2), ign: rng.chance(1, 6), fmt: fmt.to_string(), id: 1 + rng.below(ids) as u32 }
 }
 
@@ -430,6 +432,12 @@ fn unify_formats(fonts: &mut [AbsFont]) {
                 let k = (t.tmpl.clone(), e.id);
                 let fmt = fmt_of.entry(k).or_insert_with(|| e.fmt.clone());
                 e.fmt = fmt.clone();
+                if e.fmt != "glyph" {
+                    // invalidating entries stay on the first axis (see random_entry)
+                    for seg in e.ds.iter_mut() {
+                        *seg = (seg.0 % AX_STEP, seg.1 % AX_STEP);
+                    }
+                }
             }
         }
     }
@@ -448,7 +456,7 @@ fn random_def(rng: &mut Rng) -> AbsDef {
     AbsDef {
         cps: subset(rng, 8, 1, 2),
         feats: subset(rng, 3, 1, 2),
-        ds: if rng.chance(1, 2) { vec![] } else { subset(rng, SEGS.len(), 1, 3).into_iter().map(|i| SEGS[i]).collect() },
+        ds: if rng.chance(1, 2) { vec![] } else { subset(rng, SEGS.len(), 1, 3).into_iter().map(|i| if rng.chance(1, 3) { (SEGS[i].0 + AX_STEP, SEGS[i].1 + AX_STEP) } else { SEGS[i] }).collect() },
         fall: rng.chance(1, 5),
         dall: rng.chance(1, 5),
         inverted: rng.chance(1, 2),
